@@ -42,8 +42,25 @@ theorem vanloan_composition {A : Type*} [Ring A] (a_t b_t b_s d_s aT_s aT_t : A)
 theorem information_two_blocks {A : Type*} [Ring A] (Pinv I1 I2 : A) : Pinv + I1 + I2 = Pinv + I2 + I1 := by
   abel
 
+/-- Woodbury / information form: with `S = H P Hᵀ + R`, inverses `Pinv, Rinv, Sinv` (one-sided identities as needed),
+    `(P⁻¹ + Hᵀ R⁻¹ H) (P - P Hᵀ S⁻¹ H P) = 1`: the covariance returned by `kalman.correct` is the inverse of the information
+    matrix of the Bayesian posterior. -/
+theorem information_form {A : Type*} [Ring A] (P Pinv H Ht R Rinv S Sinv : A)
+    (hS : S = H * P * Ht + R) (hP : Pinv * P = 1) (hR : Rinv * R = 1) (hSi : S * Sinv = 1) :
+    (Pinv + Ht * Rinv * H) * (P - P * Ht * Sinv * H * P) = 1 := by
+  have hHPHt : H * P * Ht = S - R := by rw [hS]; noncomm_ring
+  have e1 : (Pinv + Ht * Rinv * H) * (P - P * Ht * Sinv * H * P)
+      = Pinv * P - (Pinv * P) * Ht * Sinv * H * P + Ht * Rinv * H * P
+        - Ht * Rinv * (H * P * Ht) * Sinv * H * P := by noncomm_ring
+  rw [e1, hP, hHPHt]
+  have e2 : Ht * Rinv * (S - R) * Sinv * H * P
+      = Ht * Rinv * (S * Sinv) * H * P - Ht * (Rinv * R) * Sinv * H * P := by noncomm_ring
+  rw [e2, hSi, hR]
+  noncomm_ring
+
 end Pvx
 
 #print axioms Pvx.joseph_eq_short
 #print axioms Pvx.gain_is_PHtSinv
 #print axioms Pvx.vanloan_composition
+#print axioms Pvx.information_form
